@@ -807,6 +807,7 @@ func runC06(c *Ctx) {
 	checkAttrBlockFollowsItsFlags(c, "R11")
 	checkFilexferRequestDispatch(c, "R12")
 	checkPacketStartsAtZero(c, "R13")
+	checkDecodedFlagsReachTheLadder(c, "R14")
 
 	// ---------- R8 count guards refuse only what cannot fit ----------
 	checkCountGuards(c, "R8")
@@ -1847,4 +1848,47 @@ func checkCursorThreading(c *Ctx, rule string, only map[*ssa.Function]bool) int 
 		}
 	}
 	return n
+}
+
+// checkDecodedFlagsReachTheLadder (C06.R14 / C16.R13): the attribute ladder is given the flags word as it was read —
+// the result of the uint32 primitive, a packet's Flags field, or a parameter handed on — never a masked or otherwise
+// recomputed word.  With a bit masked away its block stays undecoded in the buffer, and in a NAME reply every later
+// entry is read from the middle of it.
+func checkDecodedFlagsReachTheLadder(c *Ctx, rule string) {
+	p := c.P
+	n := 0
+	for _, fn := range p.LibFuncs() {
+		if outermost(fn).Package() != p.Sftp {
+			continue
+		}
+		eachInstr(fn, func(in ssa.Instruction) {
+			cc := callOf(in)
+			if cc == nil || cc.StaticCallee() == nil || fnName(cc.StaticCallee()) != "unmarshalFileStat" || len(cc.Args) != 2 {
+				return
+			}
+			n++
+			v := stripConv(cc.Args[0])
+			ok := false
+			switch x := v.(type) {
+			case *ssa.Parameter:
+				ok = true
+			case *ssa.Extract:
+				if call, isCall := x.Tuple.(*ssa.Call); isCall && x.Index == 0 {
+					switch calleeName(&call.Call) {
+					case "unmarshalUint32Safe", "unmarshalUint32":
+						ok = true
+					}
+				}
+			case *ssa.UnOp:
+				if x.Op == token.MUL {
+					if _, name, _, isField := fieldOf(x.X); isField && (name == "Flags" || name == "Pflags") {
+						ok = true
+					}
+				}
+			}
+			c.check(ok, rule, "flags word given to the attribute ladder in "+fnName(fn), p.Pos(in.Pos()), "the word as decoded (primitive result, Flags field or parameter)",
+				"unmarshalFileStat is given a recomputed flags word ("+v.String()+"): a block whose bit was masked away stays in the buffer and the fields behind it are read from the wrong position")
+		})
+	}
+	c.check(n >= 6, rule, "calls of the attribute ladder", "?", fmt.Sprintf("%d calls", n), fmt.Sprintf("only %d calls of unmarshalFileStat found", n))
 }
